@@ -53,7 +53,16 @@ def _neuron(kind, shape, B):
 
 
 def _conn(kind, cfg, inshape, outshape, B, gen):
-    delay = 3.0 if cfg["delayed"] else None
+    c = _conn0(kind, cfg, inshape, outshape, B, gen)
+    if cfg.get("resized") and cfg["delayed"]:
+        # built with one-slot histories (maximum delay 0), lengthened by the setter afterwards
+        c.synapse.delay = 3.0
+        c.delay = torch.rand(c.delay.shape, generator=gen) * 3.0
+    return c
+
+
+def _conn0(kind, cfg, inshape, outshape, B, gen):
+    delay = (0.0 if cfg.get("resized") else 3.0) if cfg["delayed"] else None
     kw = dict(synapse=_syn(cfg), bias=True, delay=delay, batch_size=B,
               weight_init=lambda w: torch.rand(w.shape, generator=gen),
               bias_init=lambda b: torch.rand(b.shape, generator=gen) * 0.1,
@@ -142,7 +151,16 @@ class Bundle:
             self.monitors["volt"] = StateMonitor(PassthroughReducer(DT, duration=2.0, inplace=cfg["inplace"]), "voltage",
                                                  module=n0)
             self.monitors["trace"] = OutputMonitor(CumulativeTraceReducer(DT, 10.0, 1.0, 1, duration=1.0), module=n0)
+            if cfg.get("resized"):
+                # the same reducers, built with a single slot and lengthened by the duration setter
+                ema = EMAReducer(DT, 0.25, duration=0.0, inplace=cfg["inplace"])
+                ema.duration = 2.0
+                self.monitors["ema"] = OutputMonitor(ema, module=n0)
+                volt = PassthroughReducer(DT, duration=0.0, inplace=cfg["inplace"])
+                volt.duration = 2.0
+                self.monitors["volt"] = StateMonitor(volt, "voltage", module=n0)
         self.clf = MaxRateClassifier(out, 3, decay=0.1)
+        self.keepalive = []
         self.t = 0
 
     def parts(self):
@@ -285,3 +303,11 @@ def all_configs():
     for layer, conn, syn, neuron, trainer, delayed, inplace in itertools.product(
             LAYERS, CONNS, SYNS, NEURONS, TRAINERS, (False, True), (False, True)):
         yield dict(layer=layer, conn=conn, syn=syn, neuron=neuron, trainer=trainer, delayed=delayed, inplace=inplace)
+
+
+def probe_infer(bundle: Bundle, seed: int):
+    """Classification through the public API without touching the state (used right after a load)."""
+    gen = torch.Generator().manual_seed(seed)
+    x = torch.rand((bundle.B, *bundle.clf.shape), generator=gen)
+    return {"out": [], "pred": bundle.clf.classify(x), "logits": bundle.clf.regress(x),
+            "pred_np": bundle.clf.classify(x, proportional=False), "logits_np": bundle.clf.regress(x, proportional=False)}
